@@ -9,6 +9,7 @@ import WV.Model.C19
 import WV.Model.C13
 import WV.Model.C15
 import WV.Model.C01
+import WV.Model.C04
 
 /-! Line-protocol driver over the executable models.  First stdin line names the model
     (`C12`, …); every following line is one operation; one output line per operation. -/
@@ -32,6 +33,7 @@ def dispatch (which : String) (lines : List String) : List String :=
   | "C13" => WV.C13.driver lines
   | "C15" => WV.C15.driver lines
   | "C01" => WV.C01.driver lines
+  | "C04" => WV.C04.driver lines
   | _ => ["unknown-model " ++ which]
 
 def main : IO Unit := do
